@@ -33,13 +33,15 @@ Pk(n, xs)      == [num |-> n, wt |-> 2, kind |-> "packed", x |-> 0, kids |-> <<>
 \* node table of the base document (ids are positions in this sequence)
 BaseNodes ==
   << M(1, <<2, 3>>), V(1, 1), V(2, 2),                         \* 1: sample_type {type=1, unit=2}
-     M(2, <<5, 6, 7>>), V(1, 1), V(2, 5), M(3, <<8, 9>>), V(1, 3), V(2, 4),   \* 4: sample {loc=1, value=5, label{key=3,str=4}}
+     M(2, <<5, 6, 7, 40, 44>>), V(1, 1), V(2, 5), M(3, <<8, 9>>), V(1, 3), V(2, 4),   \* 4: sample {loc=1, value=5, label{key=3,str=4}, 2 numeric labels}
      M(3, <<11, 12, 13, 14>>), V(1, 1), V(2, 16), V(3, 32), V(5, 5),          \* 10: mapping {id=1,start,limit,filename=5}
      M(4, <<16, 17, 18, 19>>), V(1, 1), V(2, 1), V(3, 17), M(4, <<20, 21>>), V(1, 1), V(2, 3),  \* 15: location {id=1, mapping=1, addr, line{fn=1, line=3}}
      M(5, <<23, 24, 25, 26>>), V(1, 1), V(2, 3), V(3, 3), V(4, 4),            \* 22: function {id=1,name=3,sys=3,file=4}
      S(6, ""), S(6, "samples"), S(6, "count"), S(6, "f"), S(6, "f.c"), S(6, "bin"),   \* 27..32: string table
      V(9, 5), M(11, <<35, 36>>), V(1, 1), V(2, 2), V(12, 1),                  \* 33: time, 34: period_type, 37: period
-     V(13, 3), V(14, 1) >>                                                    \* 38: comment, 39: default_sample_type
+     V(13, 3), V(14, 1),                                                      \* 38: comment, 39: default_sample_type
+     M(3, <<41, 42, 43>>), V(1, 3), V(3, 7), V(4, 2),                         \* 40: numeric label key=3 num=7 unit=2
+     M(3, <<45, 46>>), V(1, 3), V(3, 8) >>                                    \* 44: same key, num=8, NO unit (units must be padded)
 BaseTop == <<1, 4, 10, 15, 22, 27, 28, 29, 30, 31, 32, 33, 34, 37, 38, 39>>
 NodeIds == DOMAIN BaseNodes
 VarintNodes == {i \in NodeIds : BaseNodes[i].kind = "varint"}
